@@ -1,98 +1,68 @@
 #!/usr/bin/env python3
-"""Checker self-test: every registered mutant (a small edit of /repo that still compiles) must make the named property's
-check fire with the expected key; every benign edit must leave all checks silent.  Runs on a scratch worktree of /repo's
-HEAD outside /repo and /verif; evidence of these runs goes to a temporary directory."""
-import json, os, shutil, subprocess, sys, tempfile, time
+"""Checker self-test: every registered mutant (a small edit of /repo that still compiles; mutants/index.json, including the reverse of
+every repair commit) must make the named property's check fire with the expected key; every seeded change recorded as detected must
+still fire under one of the recorded properties; every benign edit (mutants/benign) must leave all checks silent.
+usage: tools/selftest.py [-j N] [names...]
+Each item runs in its own scratch worktree of /repo's HEAD outside /repo and /verif (tools/try_patches.py machinery); evidence of
+these runs goes to temporary directories; /repo is not touched."""
+import json, os, sys
+from concurrent.futures import ThreadPoolExecutor
 
 V = os.path.dirname(os.path.dirname(os.path.abspath(__file__)))
+sys.path.insert(0, os.path.join(V, "tools"))
+import try_patches  # noqa: E402
 
 
 def main():
-    only = set(sys.argv[1:])
-    tmp = tempfile.mkdtemp(prefix="jxlv-selftest-")
-    wt = os.path.join(tmp, "repo")
-    env = dict(os.environ, JXLV_EVID=os.path.join(tmp, "evidence"), JXLV_CACHE=os.path.join(tmp, "cache"))
-    subprocess.run(["git", "-C", "/repo", "worktree", "add", "--detach", wt, "HEAD"], check=True, capture_output=True)
-    # carry uncommitted changes of /repo's working tree (the checks are about the current tree)
-    d = subprocess.run(["git", "-C", "/repo", "diff", "HEAD"], capture_output=True, text=True).stdout
-    if d.strip():
-        subprocess.run(["git", "-C", wt, "apply"], input=d, text=True, check=True)
-        subprocess.run(["git", "-C", wt, "add", "-A"], check=True)
-    results = []
+    a = sys.argv[1:]
+    jobs = 6
+    if a and a[0] == "-j":
+        jobs = int(a[1]); a = a[2:]
+    only = set(a)
+    all_props = [c["property_id"] for c in json.load(open(os.path.join(V, "MANIFEST.json")))["checks"]]
+    items = []
+    for m in json.load(open(os.path.join(V, "mutants", "index.json"))):
+        if only and m["name"] not in only:
+            continue
+        items.append(("mutant", m["name"], os.path.join(V, "mutants", m["name"] + ".patch"), [m["property"]], m["expect"]))
+    sdir = os.path.join(V, "seeded")
+    for sid in sorted(os.listdir(sdir)) if os.path.isdir(sdir) else []:
+        mp = os.path.join(sdir, sid, "meta.json")
+        if not os.path.exists(mp) or (only and sid not in only):
+            continue
+        meta = json.load(open(mp))
+        if not meta.get("detected"):
+            continue
+        items.append(("seed", "seed/" + sid, os.path.join(sdir, sid, "patch.diff"), meta.get("detected_under") or [meta["property"]], None))
+    bdir = os.path.join(V, "mutants", "benign")
+    for fn in sorted(os.listdir(bdir)) if os.path.isdir(bdir) else []:
+        if fn.endswith(".patch") and (not only or fn in only or ("benign/" + fn) in only):
+            items.append(("benign", "benign/" + fn, os.path.join(bdir, fn), all_props, None))
+
+    def one(it):
+        kind, name, patch, props, expect = it
+        _, out = try_patches.run_one(patch, props)
+        text = "\n".join(out)
+        if "PATCH-DOES-NOT-APPLY" in text:
+            return name, "PATCH-DOES-NOT-APPLY", text
+        if "Traceback" in text or "ERROR" in text:
+            return name, "CHECK-ERROR", text
+        if kind == "benign":
+            return name, ("silent" if not out else "FALSE-ALARM"), text
+        fired = bool(out) and (expect is None or expect in text)
+        return name, ("fires" if fired else "MISSED"), text
+
     ok = True
-    try:
-        idx = json.load(open(os.path.join(V, "mutants", "index.json")))
-        for m in idx:
-            if only and m["name"] not in only:
-                continue
-            t0 = time.time()
-            patch = os.path.join(V, "mutants", m["name"] + ".patch")
-            r = subprocess.run(["git", "-C", wt, "apply", patch], capture_output=True, text=True)
-            if r.returncode != 0:
-                results.append((m["name"], "PATCH-DOES-NOT-APPLY", ""))
+    with ThreadPoolExecutor(max_workers=jobs) as ex:
+        for name, verdict, text in ex.map(one, items):
+            print("%-64s %s" % (name, verdict))
+            if verdict not in ("fires", "silent"):
                 ok = False
-                continue
-            p = subprocess.run([os.path.join(V, "check"), m["property"], "--repo", wt], capture_output=True, text=True, env=env)
-            out = p.stdout + p.stderr
-            fired = p.returncode == 1 and m["expect"] in out
-            results.append((m["name"], "fires" if fired else "MISSED (exit %d)" % p.returncode, "%.0fs" % (time.time() - t0)))
-            if not fired:
-                ok = False
-                sys.stdout.write(out[-1500:])
-            subprocess.run(["git", "-C", wt, "checkout", "--", "."], check=True)
-            subprocess.run(["git", "-C", wt, "clean", "-fdq"], check=True)
-        # seeded changes written by independent sub-agents that the checks are known to detect
-        sdir = os.path.join(V, "seeded")
-        for sid in sorted(os.listdir(sdir)) if os.path.isdir(sdir) else []:
-            mp = os.path.join(sdir, sid, "meta.json")
-            if not os.path.exists(mp) or (only and sid not in only):
-                continue
-            meta = json.load(open(mp))
-            if not meta.get("detected"):
-                continue
-            t0 = time.time()
-            r = subprocess.run(["git", "-C", wt, "apply", os.path.join(sdir, sid, "patch.diff")], capture_output=True, text=True)
-            if r.returncode != 0:
-                results.append(("seed/" + sid, "PATCH-DOES-NOT-APPLY", ""))
-                ok = False
-                continue
-            props = meta.get("detected_under", [meta["property"]])
-            fired = False
-            for pid in props:
-                p = subprocess.run([os.path.join(V, "check"), pid, "--repo", wt], capture_output=True, text=True, env=env)
-                fired = fired or p.returncode == 1
-            results.append(("seed/" + sid, "fires" if fired else "MISSED", "%.0fs" % (time.time() - t0)))
-            if not fired:
-                ok = False
-            subprocess.run(["git", "-C", wt, "checkout", "--", "."], check=True)
-            subprocess.run(["git", "-C", wt, "clean", "-fdq"], check=True)
-        bdir = os.path.join(V, "mutants", "benign")
-        props = sorted(c["property_id"] for c in json.load(open(os.path.join(V, "MANIFEST.json")))["checks"])
-        for fn in sorted(os.listdir(bdir)):
-            if not fn.endswith(".patch") or (only and fn[:-6] not in only):
-                continue
-            r = subprocess.run(["git", "-C", wt, "apply", os.path.join(bdir, fn)], capture_output=True, text=True)
-            if r.returncode != 0:
-                results.append(("benign/" + fn, "PATCH-DOES-NOT-APPLY", ""))
-                ok = False
-                continue
-            noisy = []
-            for pid in props:
-                p = subprocess.run([os.path.join(V, "check"), pid, "--repo", wt], capture_output=True, text=True, env=env)
-                if p.returncode != 0:
-                    noisy.append(pid)
-            results.append(("benign/" + fn, "silent" if not noisy else "FALSE ALARM in %s" % noisy, ""))
-            if noisy:
-                ok = False
-            subprocess.run(["git", "-C", wt, "checkout", "--", "."], check=True)
-    finally:
-        subprocess.run(["git", "-C", "/repo", "worktree", "remove", "--force", wt], capture_output=True)
-        shutil.rmtree(tmp, ignore_errors=True)
-    for r in results:
-        print("%-45s %s %s" % r)
-    print("SELFTEST", "OK" if ok else "FAILED")
-    return 0 if ok else 1
+                print(text[:1200])
+            sys.stdout.flush()
+    print("SELFTEST OK" if ok else "SELFTEST FAILED")
+    sys.exit(0 if ok else 1)
 
 
 if __name__ == "__main__":
-    sys.exit(main())
+    main()
